@@ -21,13 +21,14 @@ impl Adapter for FallbackAd {
         "fallback"
     }
     fn gen_cfg(&mut self, rng: &mut Rng, _size: Size) -> Value {
-        json!({"hm": rng.below(4), "strat": *rng.pick(&["value", "valuefn", "fromerr", "fromreq", "service", "exception"]), "pred": rng.below(2), "bk": *rng.pick(&["ok", "err"]), "ord": rng.below(2)})
+        json!({"hm": rng.below(4), "strat": *rng.pick(&["value", "valuefn", "fromerr", "fromreq", "service", "exception"]), "pred": rng.below(2), "bk": *rng.pick(&["ok", "err", "err2"]), "ord": rng.below(2)})
     }
     fn build(&mut self, cfg: &Value, sim: &mut Sim) {
         let vfn = Arc::new(AtomicU64::new(0));
         let bkc = Arc::new(AtomicU64::new(0));
         let mut b = FallbackLayer::<Req, Resp, IErr>::builder();
         let bk_ok = cfg["bk"] == "ok";
+        let bk_code = if cfg["bk"] == "err2" { 2 } else { 74 };
         // builder call order: predicate before or after the strategy
         let pred_first = cfg["ord"].as_u64().unwrap_or(0) == 1;
         if pred_first && cfg["pred"].as_u64().unwrap() == 1 {
@@ -49,7 +50,7 @@ impl Adapter for FallbackAd {
                         if bk_ok {
                             Ok(Resp { serial: 7400, req: r.id })
                         } else {
-                            Err(IErr { code: 74, serial: r.id as u64 })
+                            Err(IErr { code: bk_code, serial: r.id as u64 })
                         }
                     })
                 })
